@@ -3,6 +3,7 @@ package rules
 import (
 	"fmt"
 	"go/ast"
+	"hash/fnv"
 	"sort"
 	"strings"
 
@@ -310,7 +311,9 @@ func (c *Ctx) ringDecisions() {
 			if why == "" {
 				why = fmt.Sprintf("%d of %d assignments differ; %s", nBad, nAssign, first)
 			}
-			c.violate("decision-rule", sp.Site, "window rule: "+short(why, 150), lit.Pos(), "the decision is not the documented one ("+sp.Doc+"): "+why)
+			h := fnv.New32a()
+			h.Write([]byte(why))
+			c.violate("decision-rule", sp.Site, fmt.Sprintf("window rule: %s #%08x", short(why, 110), h.Sum32()), lit.Pos(), "the decision is not the documented one ("+sp.Doc+"): "+why)
 		}
 		// the window holds DownDays values: the ring is created with that capacity
 		capOK := false
